@@ -50,6 +50,12 @@ pub struct FaultCfg {
     /// a sleep returns late (never early)
     pub timer_late_p: f64,
     pub timer_late_max_ms: u64,
+    /// "slow node": a spawned thread is marked slow with probability `slow_thread_p`; a slow
+    /// thread stalls (1..=slow_max_ms) at each of its hooks with probability `slow_point_p`, so it
+    /// keeps arriving late everywhere - including between two steps that look adjacent
+    pub slow_thread_p: f64,
+    pub slow_point_p: f64,
+    pub slow_max_ms: u64,
 }
 
 #[derive(Debug, Clone, PartialEq)]
@@ -146,6 +152,7 @@ struct Th {
     os_id: Option<ThreadId>,
     gate: Arc<Gate>,
     panicked: bool,
+    slow: bool,
 }
 
 #[derive(Debug, Clone, Default)]
@@ -271,6 +278,7 @@ impl Runtime {
             os_id: Some(std::thread::current().id()),
             gate,
             panicked: false,
+            slow: false,
         };
         let inner = Inner {
             cfg,
@@ -595,7 +603,11 @@ impl SimRuntime for Handle {
         let mut g = rt.inner.lock().unwrap();
         let me = Runtime::me(&g);
         *g.stats.sites.entry(site.to_string()).or_insert(0) += 1;
-        let (p, max) = (g.cfg.faults.stall_p, g.cfg.faults.stall_max_ms);
+        let (mut p, mut max) = (g.cfg.faults.stall_p, g.cfg.faults.stall_max_ms);
+        if g.threads[me as usize].slow {
+            p = g.cfg.faults.slow_point_p;
+            max = g.cfg.faults.slow_max_ms;
+        }
         if let Some(ms) = Runtime::draw_fault(&mut g, "stall", p, max) {
             *g.stats.faults.entry("stall".into()).or_insert(0) += 1;
             let now = g.now_us;
@@ -638,6 +650,16 @@ impl SimRuntime for Handle {
             *g.stats.faults.entry("late_start".into()).or_insert(0) += 1;
             start += ms * 1000;
         }
+        let slow = match g.cfg.sched {
+            Sched::Explicit | Sched::Default => false,
+            _ => {
+                let p = g.cfg.faults.slow_thread_p;
+                p > 0.0 && g.rng.chance(p)
+            }
+        };
+        if slow {
+            *g.stats.faults.entry("slow_thread".into()).or_insert(0) += 1;
+        }
         g.threads.push(Th {
             name: name.to_string(),
             st: St::NotStarted,
@@ -650,6 +672,7 @@ impl SimRuntime for Handle {
                 thread: Mutex::new(None),
             }),
             panicked: false,
+            slow,
         });
         id
     }
